@@ -282,6 +282,13 @@ def rule_padding(ctx, rid):
                     and not isinstance(t_[2][0][2][1][1][1], bool):
                 # (the 2-D form of the signal is [samples x 1]: column 0 and column -1 are that column, no other exists)
                 colmap[t_] = ('call', 'builtins.len', (Xs,), ())
+        # X.shape[0] is len(X) (also for the single column X[:, 0])
+        for t_ in subterms(conj):
+            if t_[0] == 'sub' and t_[2] == C(0) and t_[1][0] == 'attr' and t_[1][2] == 'shape':
+                b_ = t_[1][1]
+                if b_ == Xs or (b_[0] == 'sub' and b_[1] == Xs and b_[2][0] == 'tuple' and len(b_[2][1]) == 2
+                                and b_[2][1][0] == ('slice', NONE, NONE, NONE) and b_[2][1][1] in (C(0), C(-1))):
+                    colmap[t_] = ('call', 'builtins.len', (Xs,), ())
         if colmap:
             conj = _subst(conj, colmap)
         got, want = nnf(conj, alg), nnf(spec, alg)
